@@ -3,6 +3,9 @@
 # runs ALL 20 checks, undoes it. A refactoring must not raise an alarm; prints one line per (refactor, failing check).
 tier=${1:-quick}
 cd /verif
+# evidence files must describe runs against the unchanged tree: keep them aside while a change is applied
+rm -rf /tmp/evidence.keep; cp -r /verif/evidence /tmp/evidence.keep
+trap 'rm -rf /verif/evidence; cp -r /tmp/evidence.keep /verif/evidence; rm -rf /tmp/evidence.keep' EXIT
 for f in /verif/refactors/r*.diff; do
   id=$(basename $f .diff)
   if ! git -C /repo apply --check $f 2>/dev/null; then echo "$id: patch does not apply"; continue; fi
